@@ -86,6 +86,127 @@ def current_sim():
     return _CURRENT_SIM
 
 
+_real_allocate_lock = _thread.allocate_lock
+
+
+class SimLock:
+    """Drop-in for threading.Lock.  Outside a simulation (or outside an actor) it
+    is a plain lock.  Inside, a contended acquire parks the actor in the
+    scheduler instead of blocking the kernel thread, so a lock held across a
+    blocking call is a modelled wait (and a liveness problem the checks can see),
+    never a real deadlock of the simulator."""
+
+    def __init__(self):
+        self._l = _real_allocate_lock()
+
+    def _actor_sim(self):
+        sim = _CURRENT_SIM
+        if sim is None or sim.closed:
+            return None
+        me = sim.me()
+        if me is None or me.is_main:
+            return None
+        return sim
+
+    def acquire(self, blocking=True, timeout=-1):
+        if self._l.acquire(False):
+            return True
+        if not blocking:
+            return False
+        sim = self._actor_sim()
+        if sim is None:
+            return self._l.acquire(True, timeout)
+        deadline = None if timeout is None or timeout < 0 else timeout
+        while True:
+            sim.lock_waits += 1
+            ok = sim.block(lambda: not self._l.locked(), deadline, "lock")
+            if self._l.acquire(False):
+                return True
+            if not ok and deadline is not None:
+                return False
+
+    def release(self):
+        # (not a yield point: waiters become runnable at the releasing actor's next yield)
+        self._l.release()
+
+    def locked(self):
+        return self._l.locked()
+
+    __enter__ = acquire
+
+    def __exit__(self, *a):
+        self.release()
+
+    def _at_fork_reinit(self):
+        self._l = _real_allocate_lock()
+
+
+class SimRLock:
+    """Drop-in for threading.RLock built on SimLock (owner + count)."""
+
+    def __init__(self):
+        self._block = SimLock()
+        self._owner = None
+        self._count = 0
+
+    def acquire(self, blocking=True, timeout=-1):
+        me = _thread.get_ident()
+        if self._owner == me:
+            self._count += 1
+            return True
+        rc = self._block.acquire(blocking, timeout)
+        if rc:
+            self._owner = me
+            self._count = 1
+        return rc
+
+    __enter__ = acquire
+
+    def release(self):
+        if self._owner != _thread.get_ident():
+            raise RuntimeError("cannot release un-acquired lock")
+        self._count -= 1
+        if not self._count:
+            self._owner = None
+            self._block.release()
+
+    def __exit__(self, *a):
+        self.release()
+
+    def locked(self):
+        return self._block.locked()
+
+    # used by threading.Condition
+    def _is_owned(self):
+        return self._owner == _thread.get_ident()
+
+    def _release_save(self):
+        count, owner = self._count, self._owner
+        self._count = 0
+        self._owner = None
+        self._block.release()
+        return (count, owner)
+
+    def _acquire_restore(self, state):
+        self._block.acquire()
+        self._count, self._owner = state
+
+    def _at_fork_reinit(self):
+        self._block._at_fork_reinit()
+        self._owner = None
+        self._count = 0
+
+    def _recursion_count(self):
+        return self._count if self._owner == _thread.get_ident() else 0
+
+
+def install_sim_locks():
+    """Make locks created from now on (in particular module-level locks of the
+    code under test, created at import) simulation-aware."""
+    threading.Lock = SimLock
+    threading.RLock = SimRLock
+
+
 class SimThread(_RealThread):
     """Drop-in for threading.Thread while a Sim is installed."""
 
@@ -166,6 +287,7 @@ class Sim:
         self.harness_error = None
         self.hung = None
         self.hung_where = ""
+        self.lock_waits = 0
         self.on_switch = None  # hook(old_actor, new_actor) for process memory swap
         self.proc_of_main = 0
 
